@@ -20,6 +20,7 @@
 //	    reads  _ | data:err:extra;...  one entry per Read the consumer performs: the bytes and the
 //	           error (n nil, e io.EOF, x other) the wrapped body returns, and how many bytes the
 //	           consumer's buffer is longer than the data. data = hex or p<len>.<start> (pattern)
+//	           N<k>: the body is http.NoBody and the consumer reads it k times
 package c19
 
 import (
@@ -298,6 +299,7 @@ type msg struct {
 	te     []string // nil = nil
 	hdr    []hkv
 	reads  []readStep
+	noBody bool // Body = http.NoBody; reads = what the consumer's reads of it return
 }
 
 var errScripted = errors.New("c19: scripted body failure")
@@ -438,7 +440,16 @@ func parseMsg(tok string) (*msg, bool) {
 			m.hdr = append(m.hdr, hkv{string(k), vs})
 		}
 	}
-	if f[8] != "_" {
+	if strings.HasPrefix(f[8], "N") {
+		k, err := strconv.Atoi(f[8][1:])
+		if err != nil || k < 0 || k > 100 {
+			return nil, false
+		}
+		m.noBody = true
+		for ; k > 0; k-- {
+			m.reads = append(m.reads, readStep{nil, 'e', 0})
+		}
+	} else if f[8] != "_" {
 		for _, r := range strings.Split(f[8], ";") {
 			p := strings.Split(r, ":")
 			if len(p) != 3 || len(p[1]) != 1 || !strings.Contains("nex", p[1]) {
@@ -551,7 +562,11 @@ func doLog(toks []string, viaMod bool) core.Result {
 		u := &url.URL{Scheme: "", Host: ""}
 		req := &http.Request{Method: "GET", URL: u, Proto: "HTTP/1.1", Header: http.Header{}}
 		var res *http.Response
-		body := &scriptBody{steps: m.reads}
+		var body io.ReadCloser = &scriptBody{steps: m.reads}
+		if m.noBody {
+			body = http.NoBody
+			core.Count("body:http.NoBody")
+		}
 		hdr := http.Header{}
 		for _, kv := range m.hdr {
 			hdr[kv.k] = kv.vs
@@ -855,7 +870,7 @@ func doLog(toks []string, viaMod bool) core.Result {
 		}
 		// (b) wrapper transparency
 		var consumed []byte
-		sawEOF := false
+		sawEOF := m.noBody && m.kind == 'q' // http.NoBody of a request is not wrapped: an empty body is at end-of-file
 		for k, g := range gots[i] {
 			st := m.reads[k]
 			if g.n != len(st.data) || g.err != errOf(st.err) || !bytes.Equal(g.data, st.data) {
